@@ -4,7 +4,7 @@ call-shape product (vm_compute); oracle: CPython, incl. *seq / **map call shapes
 import itertools, json, os, random, concurrent.futures
 import vlib, pydiff
 
-THEOREMS = ["C04_callsite_roundtrip", "C04_make_function_roundtrip", "C04_all_parameters_bound"]
+THEOREMS = ["C04_callsite_roundtrip", "C04_make_function_roundtrip", "C04_all_parameters_bound", "C04_binding_rule"]
 CODE = {"a": 1, "b": 2, "g": 7, "d": 4, "e": 5, "z": 9}
 
 def signatures():
